@@ -42,7 +42,9 @@ def print_stmts(stmts, indent=0, ind='    '):
             out += print_stmts(s[4], indent + 1, ind)
             out.append(f'{p}endfor')
         elif k == 'function':
-            args = ', '.join(s[2]) + ('...' if s[3] else '')
+            # (the layout of the parameter list varies: blanks before / after the commas are not part of the names)
+            sep = [', ', ' , ', ',', '  ,'][(len(s[1]) + len(s[2]) + len(s[4])) % 4]
+            args = sep.join(s[2]) + ('...' if s[3] else '')
             out.append(f'{p}function {s[1]}({args}):')
             out += print_stmts(s[4], indent + 1, ind)
             out.append(f'{p}endfunction')
@@ -199,6 +201,10 @@ def gen_program(r, max_depth=4, nfuncs=None, allow_while_continue=False):
         if i < nglob:
             prog.append(g.stmt(0, None, False))
     prog.append(g.log())
+    # a function statement (re)binds its name whatever the name held before: a second definition of the same name replaces the first
+    if funcs and r.random() < 0.35:
+        name, nargs, last = funcs[0]
+        prog.append(['function', name, [f'q{j}' for j in range(nargs)], last, [['expr', f"systemLog('{name} redefined')"], ['return', "'second'"]]])
     # every function is also called with one argument fewer than it has parameters (and with one more)
     for name, nargs, last in funcs:
         for n in {max(0, nargs - 1), nargs + 1}:
